@@ -245,23 +245,39 @@ impl RuleFn {
     }
 }
 
+thread_local! {
+    static USE_DEFAULT: std::cell::Cell<bool> = const { std::cell::Cell::new(false) };
+}
+
+/// run `f` with the instance API going through `T::default()` instead of `T::new()`
+pub fn with_default_ctor<T, F: FnOnce() -> T>(f: F) -> T {
+    USE_DEFAULT.with(|c| c.set(true));
+    let r = f();
+    USE_DEFAULT.with(|c| c.set(false));
+    r
+}
+
+pub fn use_default() -> bool {
+    USE_DEFAULT.with(|c| c.get())
+}
+
 macro_rules! with_profile {
     ($p:expr, $x:ident, $body:expr) => {
         match $p {
             Prof::Ucm => {
-                let $x = UsernameCaseMapped::new();
+                let $x = if use_default() { UsernameCaseMapped::default() } else { UsernameCaseMapped::new() };
                 $body
             }
             Prof::Ucp => {
-                let $x = UsernameCasePreserved::new();
+                let $x = if use_default() { UsernameCasePreserved::default() } else { UsernameCasePreserved::new() };
                 $body
             }
             Prof::Opaque => {
-                let $x = OpaqueString::new();
+                let $x = if use_default() { OpaqueString::default() } else { OpaqueString::new() };
                 $body
             }
             Prof::Nick => {
-                let $x = Nickname::new();
+                let $x = if use_default() { Nickname::default() } else { Nickname::new() };
                 $body
             }
         }
